@@ -46,6 +46,40 @@ pub mod native {
             v
         })
     }
+    // --- native allocation detector (C20 replay): counts heap allocations
+    // made while armed.  Under Kani the allocator entry points are stubbed by
+    // a panic instead.
+    use std::alloc::{GlobalAlloc, Layout, System};
+    use std::sync::atomic::{AtomicBool, AtomicUsize, Ordering};
+    pub static ARMED: AtomicBool = AtomicBool::new(false);
+    pub static ALLOCS: AtomicUsize = AtomicUsize::new(0);
+    pub struct Counting;
+    unsafe impl GlobalAlloc for Counting {
+        unsafe fn alloc(&self, l: Layout) -> *mut u8 {
+            if ARMED.load(Ordering::Relaxed) {
+                ALLOCS.fetch_add(1, Ordering::Relaxed);
+            }
+            System.alloc(l)
+        }
+        unsafe fn dealloc(&self, p: *mut u8, l: Layout) {
+            System.dealloc(p, l)
+        }
+        unsafe fn alloc_zeroed(&self, l: Layout) -> *mut u8 {
+            if ARMED.load(Ordering::Relaxed) {
+                ALLOCS.fetch_add(1, Ordering::Relaxed);
+            }
+            System.alloc_zeroed(l)
+        }
+        unsafe fn realloc(&self, p: *mut u8, l: Layout, n: usize) -> *mut u8 {
+            if ARMED.load(Ordering::Relaxed) {
+                ALLOCS.fetch_add(1, Ordering::Relaxed);
+            }
+            System.realloc(p, l, n)
+        }
+    }
+    #[global_allocator]
+    static GLOBAL: Counting = Counting;
+
     pub fn covered(msg: &'static str) {
         COVERS.with(|c| c.borrow_mut().push(msg));
     }
@@ -125,6 +159,26 @@ pub fn assume(c: bool) {
         if !c {
             std::panic::panic_any(native::AssumeFailed)
         }
+    }
+}
+
+/// Start of a region that must not allocate (C20).  Under Kani the allocator
+/// entry points are stubbed by a panic; natively allocations are counted.
+#[inline(always)]
+pub fn no_alloc_begin() {
+    #[cfg(not(kani))]
+    {
+        native::ALLOCS.store(0, std::sync::atomic::Ordering::Relaxed);
+        native::ARMED.store(true, std::sync::atomic::Ordering::Relaxed);
+    }
+}
+
+#[inline(always)]
+pub fn no_alloc_end() {
+    #[cfg(not(kani))]
+    {
+        native::ARMED.store(false, std::sync::atomic::Ordering::Relaxed);
+        assert!(native::ALLOCS.load(std::sync::atomic::Ordering::Relaxed) == 0, "STUB: heap allocation (native allocation counter)");
     }
 }
 
